@@ -117,8 +117,15 @@ func Mutate(tx []byte, class string, attacker *Acct, r *rng.R) []byte {
 			st.Signatures[i] = action.Signature{Signer: attacker.Pub, Signed: attacker.Sign(st.RawTx.RawBytes())}
 		}
 	case "key-algorithm":
-		st.Signatures[0].Signer.KeyType = keys.SECP256K1
+		if st.Signatures[0].Signer.KeyType == keys.SECP256K1 {
+			st.Signatures[0].Signer.KeyType = keys.ED25519
+		} else {
+			st.Signatures[0].Signer.KeyType = keys.SECP256K1
+		}
 	case "btcec-key":
+		if st.Signatures[0].Signer.KeyType == keys.BTCECSECP {
+			return nil
+		}
 		st.Signatures[0].Signer = keys.PublicKey{KeyType: keys.BTCECSECP, Data: st.Signatures[0].Signer.Data}
 	case "sig-bytes-last":
 		n := len(st.Signatures)
@@ -162,9 +169,9 @@ func Mutate(tx []byte, class string, attacker *Acct, r *rng.R) []byte {
 // transactions every mutant class is offered to CheckTx (must be rejected) and delivered directly
 // inside A's block (must fail and leave A's state equal to B's, which never saw the mutant).
 func RunSig(seed uint64, histories, blocks, maxTxs int) (*Result, error) {
-	res := NewResult("sig", seed, "case = one generated block history on twin replicas (plus one scripted regression scenario: the formerly executed EXPIRE_VOTES naming the empty address with a BTCEC key and no signature); for fresh valid signed transactions of every generated kind each of the 17 mutant classes (payload digit, fee price/gas/currency, memo, type, substituted signer key, flipped signature byte, no signatures, swapped signer order, extra signature, re-signed by another key, changed key algorithm tag, BTCEC tag, flipped byte of the LAST signature, substituted LAST signer, signer addresses blanked + BTCEC keys + junk signatures) is re-serialised canonically, offered to CheckTx and delivered directly in a block on replica A only, classes rotating per kind so that every kind meets every applicable class; the unmutated original is offered to CheckTx on the same state as a positive control; monitor: every mutant has CheckTx code != 0, DeliverTx code != 0, the application stays open, and A's application hash equals B's; non-trivial = at least 10 mutants of at least 3 kinds delivered and at least 3 originals admitted; distinct = SHA-256 of the history lines")
+	res := NewResult("sig", seed, "case = one generated block history on twin replicas (plus one scripted regression scenario: the formerly executed EXPIRE_VOTES naming the empty address with a BTCEC key and no signature); for fresh valid signed transactions of every generated kind each of the 17 mutant classes (payload digit, fee price/gas/currency, memo, type, substituted signer key, flipped signature byte, no signatures, swapped signer order, extra signature, re-signed by another key, changed key algorithm tag, BTCEC tag, flipped byte of the LAST signature, substituted LAST signer, signer addresses blanked + BTCEC keys + junk signatures) is re-serialised canonically, offered to CheckTx and delivered directly in a block on replica A only, classes rotating per kind so that every kind meets every applicable class; three of the four funded accounts hold a SECP256K1 key and two BTCEC keys (signing with the libraries directly as specified, one BTCEC account with the repo's own handler), so originals and mutants meet three key algorithms; the unmutated original is offered to CheckTx on the same state as a positive control; monitor: every mutant has CheckTx code != 0, DeliverTx code != 0, the application stays open, and A's application hash equals B's; non-trivial = at least 10 mutants of at least 3 kinds delivered and at least 3 originals admitted; distinct = SHA-256 of the history lines")
 	root := rng.New(seed*911 + 29)
-	kindRound, pairs := map[string]int{}, map[string]bool{}
+	kindRound, pairs, algPairs := map[string]int{}, map[string]bool{}, map[string]bool{}
 	seenHist := map[[32]byte]bool{}
 	for c := 0; c < histories; c++ {
 		r := root.Fork()
@@ -172,6 +179,7 @@ func RunSig(seed uint64, histories, blocks, maxTxs int) (*Result, error) {
 		hl.Add("sig history seed=%d case=%d", seed, c)
 		p := paramsFor(r, seed*1000+uint64(c))
 		w := NewWorld(p)
+		mixAccountAlgorithms(w)
 		A, err := NewReplica(w, Identity{Name: "A", Val: w.Vals[0]})
 		if err != nil {
 			return nil, err
@@ -220,6 +228,10 @@ func RunSig(seed uint64, histories, blocks, maxTxs int) (*Result, error) {
 				if m == nil {
 					continue
 				}
+				if bst, ok := parseSigned(base.Bytes); ok && len(bst.Signatures) > 0 {
+					res.Distribution["base-signed-with:"+algNames[bst.Signatures[0].Signer.KeyType]]++
+					algPairs[algNames[bst.Signatures[0].Signer.KeyType]+"/"+class] = true
+				}
 				pairs[base.Kind+"/"+class] = true
 				res.Distribution["kind:"+base.Kind]++
 				cr := A.CheckTx(m)
@@ -243,6 +255,9 @@ func RunSig(seed uint64, histories, blocks, maxTxs int) (*Result, error) {
 				c0 := A.CheckTx(base.Bytes)
 				res.Distribution[fmt.Sprintf("check:original:%d", c0.Code)]++
 				if c0.Code == 0 {
+					if bst, ok := parseSigned(base.Bytes); ok && len(bst.Signatures) > 0 {
+						res.Distribution["original-admitted-signed-with:"+algNames[bst.Signatures[0].Signer.KeyType]]++
+					}
 					originalsAdmitted++
 					res.Counters["originals-admitted"]++
 					res.Distribution["rejected-mutant-of-admitted-original:"+class] += int(cr.Code & 1)
@@ -296,8 +311,15 @@ func RunSig(seed uint64, histories, blocks, maxTxs int) (*Result, error) {
 		}
 		TruncateAppLog()
 	}
+	// every algorithm the originals were signed with must have been admitted at least once
+	for _, alg := range []string{"ed25519", "secp256k1", "btcec"} {
+		if res.Distribution["base-signed-with:"+alg] >= 100 && res.Distribution["original-admitted-signed-with:"+alg] == 0 {
+			hitOnce(res, "originals-of-algorithm-never-admitted:"+alg, 0, fmt.Sprintf("%d correctly signed originals with %s keys, none admitted by CheckTx", res.Distribution["base-signed-with:"+alg], alg), nil)
+		}
+	}
 	res.Counters["kind-class-pairs"] = len(pairs)
 	res.Counters["kinds"] = len(kindRound)
+	res.Counters["algorithm-class-pairs"] = len(algPairs)
 	if histories > 0 && res.Counters["originals-admitted"] == 0 {
 		return nil, fmt.Errorf("sig: no unmutated transaction was admitted by CheckTx in %d histories: the mutant verdicts would be vacuous", histories)
 	}
@@ -391,6 +413,7 @@ func ReplaySigHistory(lines []string, res *Result, out func(string)) error {
 	r := root.Fork()
 	p := paramsFor(r, seed*1000+uint64(c))
 	w := NewWorld(p)
+	mixAccountAlgorithms(w)
 	A, err := NewReplica(w, Identity{Name: "A", Val: w.Vals[0]})
 	if err != nil {
 		return err
